@@ -430,7 +430,27 @@ def gen_world(lib: Lib, rng: random.Random, knobs: dict | None = None) -> World:
         need = sorted({fidx[c] for nm in file_macros[i] for c in lib.macros[nm].callees if fidx[c] != i})
         if i == 0:
             need = sorted(set(need) | {fidx[nm] for nm, _ in lib.main_calls if fidx[nm] != 0})
-        # transitivity is allowed: sometimes rely on it (drop a direct import that is reachable through another one)
+        # macros of a file's imports are passed on to its importers: sometimes rely on that (drop a direct import of a
+        # file that is reachable through another import)
+        if k.get("transitive", rng.random() < 0.4) and len(need) > 1:
+            def _needs(x):
+                out = {fidx[c] for nm in file_macros[x] for c in lib.macros[nm].callees if fidx[c] != x}
+                return out
+
+            def _reach(x, seen=None):
+                seen = set() if seen is None else seen
+                for y in _needs(x):
+                    if y not in seen:
+                        seen.add(y)
+                        _reach(y, seen)
+                return seen
+
+            kept = list(need)
+            for j in list(need):
+                if any(j in _reach(o) for o in kept if o != j):
+                    kept.remove(j)
+                    w.transitive_only = getattr(w, "transitive_only", 0) + 1
+            need = kept
         imports = []
         src_dir = posixpath.dirname(paths[i])
         for j in need:
